@@ -288,7 +288,7 @@ func verifC09Rank(rx, ry, rz int) {}
 
 // What every filter function returns: either a verdict for the whole result
 // (nil mask) or a fresh mask with one bit per measurement, agreeing with den.
-//@ pure func maskFor(m mask, res *benchfmt.Result) bool = m == nil || (len(m) == (len(res.Values)+31)/32 && len(res.Values) > 0)
+//@ pure func maskFor(m mask, res *benchfmt.Result) bool = m == nil || len(m) == (len(res.Values)+31)/32
 //@ pure func denOf(m mask, x bool, i int) bool = m == nil ? x : bit(m, i)
 
 //@ functype filterFn(res *benchfmt.Result) (m mask, x bool)
@@ -329,3 +329,34 @@ func verifC09Rank(rx, ry, rz int) {}
 //@     invariant 0 <= idx() <= len(subs) && unchanged() && maskFor(m, res) && (m == nil || (fresh(m) && ref(m) <= alloc))
 //@     invariant forall i int :: 0 <= i < len(res.Values) ==> (orFrom(subs, res, i, 0) <==> (denOf(m, false, i) || orFrom(subs, res, i, idx())))
 //@     decreases len(subs) - idx()
+
+// A term's verdict on a unit string, and on a measurement (either unit counts).
+//@ pure func unitTermOK(q *parse.FilterMatch, u string) bool = q.Regexp == nil ? q.Lit == u : regexp.MatchString(q.Regexp, u)
+//@ pure func unitMatches(q *parse.FilterMatch, v benchfmt.Value) bool = unitTermOK(q, v.Unit) || (v.OrigUnit != "" && unitTermOK(q, v.OrigUnit))
+
+// The .unit leaf: bit i is set exactly when measurement i's base or written unit matches.
+//@ func NewFilter$1$1(res *benchfmt.Result) (m mask, x bool)
+//@   props C06 C04
+//@   requires res != nil && q != nil && len(res.Values) <= 281474976710656
+//@   ensures maskFor(m, res) && m != nil && (len(m) == 0 || fresh(m))
+//@   ensures forall i int :: 0 <= i < len(res.Values) ==> (bit(m, i) <==> unitMatches(q, res.Values[i]))
+//@   loop 1:
+//@     invariant 0 <= idx() <= len(res.Values) && unchanged() && len(m) == (len(res.Values)+31)/32 && m != nil && (len(m) == 0 || fresh(m))
+//@     invariant forall i int :: 0 <= i < idx() ==> (bit(m, i) <==> unitMatches(q, res.Values[i]))
+//@     invariant forall w int :: 0 <= w < len(m) && 32*w >= idx() ==> m[w] == bv32(0)
+//@     invariant forall i int :: idx() <= i < 32*len(m) ==> !bit(m, i)
+//@     decreases len(res.Values) - idx()
+
+// A key term judges the whole result.
+//@ func NewFilter$1$2(res *benchfmt.Result) (m mask, x bool)
+//@   props C06
+//@   ensures m == nil
+
+// testOf: what a Match says about measurement i.
+//@ pure func testOf(mm Match, i int) bool = mm.m == nil ? mm.x : bit(mm.m, i)
+
+//@ func (f *Filter) Match(res *benchfmt.Result) (mm Match, err error)
+//@   props C06
+//@   requires f != nil && res != nil
+//@   ensures err == nil && mm.n == len(res.Values) && matchOK(mm)
+//@   ensures forall i int :: 0 <= i < len(res.Values) ==> (testOf(mm, i) <==> den(f.match, res, i))
